@@ -10,7 +10,7 @@ from vlib import apigen, pipeline, rdm, refs
 
 ID = "C16"
 LEVEL = "exploration"
-RULE = ("cases = subsets of the 11 RPCs of a three-service API (one service name a prefix of another, sharing an RPC name) whose type graph has sharing, nesting (a nested type referenced without its "
+RULE = ("cases = subsets of the 12 RPCs of a four-service API (one service alone in a second file) (one service name a prefix of another, sharing an RPC name) whose type graph has sharing, nesting (a nested type referenced without its "
         "parent), recursion, enum-only and LRO-only files and resource references (thorough: all subsets of size 1, 2, n-1, n and 420 seeded others x {omit, "
         "keep-as-internal}; quick: a seeded sample) plus a compute-style API with extended operations (every subset of its 6 RPCs in the thorough tier: method and class "
         "names, presence of the polling method a kept initiator needs, and the initiate-then-poll flow) and settings naming unknown / "
@@ -39,7 +39,7 @@ def all_rpcs(req):
 def plan(seed, tier):
     rng = random.Random(seed)
     names = ["Library.GetShelf", "Library.GetBook", "Library.ListBooks", "Library.TagInner", "Library.ImportBooks", "Registry.Ping",
-             "Registry.Grow", "Library.PurgeBooks", "Registry.Annotate", "LibraryAdmin.GetShelf", "Library.DeleteVault"]
+             "Registry.Grow", "Library.PurgeBooks", "Registry.Annotate", "LibraryAdmin.GetShelf", "Library.DeleteVault", "Vaults.SealVault"]
     subsets = [list(c) for r in range(1, len(names) + 1) for c in itertools.combinations(names, r)]
     singles = [s for s in subsets if len(s) == 1]
     others = [s for s in subsets if len(s) > 1]
@@ -286,7 +286,7 @@ def run_case(case):
         for fd in x.DESCRIPTOR.fields:
             if fd.name in ("name", "parent"):
                 setattr(x, fd.name, {"GetShelf": "shelves/s1", "GetBook": "shelves/s1/books/b1", "ListBooks": "shelves/s1", "TagInner": "shelves/s1",
-                                     "ImportBooks": "shelves/s1", "PurgeBooks": "shelves/s1", "DeleteVault": "vaults/v1"}.get(m.name, "x"))
+                                     "ImportBooks": "shelves/s1", "PurgeBooks": "shelves/s1", "DeleteVault": "vaults/v1", "SealVault": "vaults/v1"}.get(m.name, "x"))
         calls.append({"service": s.name, "rpc": m.name, "method": rdm.py_method(m.name), "req_type": m.input_type.lstrip("."),
                       "request": rdm.b64(x.SerializeToString()), "path": f"/{p.package}.{s.name}/{m.name}"})
     script = {"root_pkg": apigen.lib_root(api.info, api.options), "types": types, "calls": calls,
